@@ -507,9 +507,11 @@ func (r *Run) restartLedger(evs []verif.Event) {
 			d, _ := hlib.KVGet(first, "body").(verif.BodyDigest)
 			if d.Len != len(rec.Body) || d.CRC != verif.Digest(rec.Body).CRC {
 				r.failf("[C05] %s on %s comes back with a different body", k, c)
+				r.failf("[C07] %s on %s comes back after the restart with a different body", k, c)
 			}
 			if ts := fmt.Sprint(hlib.KVInt(first, "ts")); ts != tsOf[k] {
 				r.failf("[C05] %s on %s comes back with timestamp %s, was %s", k, c, ts, tsOf[k])
+				r.failf("[C07] %s on %s is redelivered after the restart with timestamp %s, it was published (and delivered before) with %s", k, c, ts, tsOf[k])
 			}
 		}
 	}
